@@ -4,13 +4,24 @@ go 1.22.12
 
 toolchain go1.23.5
 
-require github.com/anthdm/hollywood v0.0.0
+require (
+	github.com/anthdm/hollywood v0.0.0
+	google.golang.org/protobuf v1.32.0
+)
 
 require (
 	github.com/DataDog/gostackparse v0.7.0 // indirect
+	github.com/golang/protobuf v1.5.3 // indirect
 	github.com/klauspost/cpuid/v2 v2.0.9 // indirect
+	github.com/planetscale/vtprotobuf v0.5.0 // indirect
+	github.com/zeebo/errs v1.2.2 // indirect
 	github.com/zeebo/xxh3 v1.0.2 // indirect
-	google.golang.org/protobuf v1.32.0 // indirect
+	golang.org/x/net v0.34.0 // indirect
+	golang.org/x/sys v0.29.0 // indirect
+	golang.org/x/text v0.21.0 // indirect
+	google.golang.org/genproto/googleapis/rpc v0.0.0-20231002182017-d307bd883b97 // indirect
+	google.golang.org/grpc v1.60.1 // indirect
+	storj.io/drpc v0.0.33 // indirect
 )
 
 replace github.com/anthdm/hollywood => /repo
